@@ -183,6 +183,30 @@ def apply_case(w, pa, pb, socks, hold, ipv6=True, be=False):
     return holders
 
 
+PROC_NAMES = ("net_connections", "connections")      # Process.connections: the deprecated, still public, alias (psutil < 6 name)
+DEFAULT_KIND = "inet"                                # documented default of both functions
+
+
+def call_forms(obj, names, kind):
+    """every way of asking obj for the connections of `kind`: each entry-point name x (positional, keyword, and - when
+    kind is the documented default - no argument). [0] is the plain positional call of the primary name."""
+    forms = []
+    for nm in names:
+        f = getattr(obj, nm)
+        forms.append((nm + "(%r)", (lambda f=f: f(kind))))
+        forms.append((nm + "(kind=%r)", (lambda f=f: f(kind=kind))))
+        if kind == DEFAULT_KIND:
+            forms.append((nm + "()  # kind %r", (lambda f=f: f())))
+    return forms
+
+
+def quiet(fn):
+    import warnings
+    with warnings.catch_warnings():
+        warnings.simplefilter("ignore", DeprecationWarning)     # the alias announces its deprecation; its answer is what is checked
+        return fn()
+
+
 def feature(socks, what):
     if any(s["proto"] == "unix" and s["path"] and " " in s["path"] for s in socks):
         return "unix-path-with-space"
@@ -218,6 +242,15 @@ def _run_case(psutil, case, st, socks, hold, ipv6, be):
         holders[k].sort()
     bad = []
     for kind in case.get("kinds", KINDS):
+        # the other spellings of the same system-wide question answer like the positional one (compared with the same reference)
+        for label, fn in call_forms(psutil, ("net_connections",), kind)[1:]:
+            got = outcome(quiet, fn)
+            if got[0] != "ok":
+                bad.append(("call-form-raised:system:%s:%s" % (label, got[1]), "psutil.%s raised %r" % (label % kind, got)))
+                continue
+            why, what = match(ref_rows(socks, holders, kind), [norm_row(r, True) for r in got[1]])
+            if why:
+                bad.append(("call-form:system:%s:%s" % (label, why), "psutil.%s: %s %r; got %r" % (label % kind, why, what, got[1])))
         got = outcome(psutil.net_connections, kind)
         if got[0] != "ok":
             bad.append(("net_connections-raised:%s:%s" % (got[1], feature(socks, "x")), "net_connections(%r) raised %r" % (kind, got)))
@@ -237,11 +270,27 @@ def _run_case(psutil, case, st, socks, hold, ipv6, be):
             if why:
                 bad.append(("process:%s:%s" % (why, feature(socks, "row")), "Process(%d).net_connections(%r): %s %r; got %r"
                             % (p.pid, kind, why, what, rows)))
+            # every other public spelling of the per-process question (keyword argument, the deprecated alias
+            # Process.connections, the default kind) answers like the positional one
+            for label, fn in call_forms(psutil.Process(p.pid), PROC_NAMES, kind)[1:]:
+                got = outcome(quiet, fn)
+                if got[0] != "ok":
+                    bad.append(("call-form-raised:process:%s:%s" % (label, got[1]), "Process(%d).%s raised %r" % (p.pid, label % kind, got)))
+                    continue
+                why, what = match(ref_rows(socks, holders, kind, only_pid=p.pid), [norm_row(r, False) for r in got[1]])
+                if why:
+                    bad.append(("call-form:process:%s:%s" % (label, why), "Process(%d).%s: %s %r; got %r"
+                                % (p.pid, label % kind, why, what, got[1])))
     for bk in case.get("badkinds", []):
         for fn in (psutil.net_connections, psutil.Process(pa.pid).net_connections):
             got = outcome(fn, bk)
             if not (got[0] == "exc" and got[1] == "ValueError"):
                 bad.append(("unknown-kind-accepted", "net_connections(%r) -> %r" % (bk, freeze(got))))
+        for obj, names, scope in ((psutil, ("net_connections",), "system"), (psutil.Process(pa.pid), PROC_NAMES, "process")):
+            for label, fn in call_forms(obj, names, bk)[1:]:
+                got = outcome(quiet, fn)
+                if not (got[0] == "exc" and got[1] == "ValueError"):
+                    bad.append(("unknown-kind-accepted:call-form:%s:%s" % (scope, label), "%s -> %r" % (label % (bk,), freeze(got))))
     return bad
 
 
@@ -429,7 +478,9 @@ def run(ctx):
     viols = []
     ncalls = 0
     for _i, (c, bad) in enumerate(zip(cases, res)):
-        ncalls += 3 * len(c.get("kinds", KINDS)) + 2 * len(c.get("badkinds", []))
+        ks = c.get("kinds", KINDS)
+        ncalls += 3 * len(ks) + 2 * len(c.get("badkinds", []))
+        ncalls += 7 * len(ks) + 5 * ks.count(DEFAULT_KIND) + 4 * len(c.get("badkinds", []))      # the other call forms (call_forms)
         for cause, msg in bad:
             viols.append({"cause": cause, "msg": msg, "case": c, "_idx": _i})
     nf, fv = f_part(ctx)
@@ -444,7 +495,8 @@ def run(ctx):
         ncalls += sres["coverage"]["executions"]
     cov = {"schedules": sres["coverage"], "fd_closing_runs": nf, "evaluations": ncalls, "distinct_nontrivial": len({repr(c) for c in cases if c["socks"]}),
            "rule": "one case = one socket table (rendered from network-order bytes) + holder map; each case is queried system-wide and "
-                   "per process for the listed kinds (evaluations = calls made); distinct_nontrivial = distinct non-empty tables",
+                   "per process for the listed kinds, through every call form (positional / kind= / no argument for the default kind; per process "
+                   "also through the deprecated alias Process.connections) (evaluations = calls made); distinct_nontrivial = distinct non-empty tables",
            "tables": len(cases), "exhaustive": True, "samples": sample(cases, 5),
            "bounds": "single sockets: all address x port pairs (quick: one endpoint fixed), all 11 TCP states, unix type x path x holder sets; "
                      "mixed tables: all multisets of <= %d sockets of a 6-entry menu x all 11 kinds" % (4 if ctx.thorough else 2)}
